@@ -446,16 +446,18 @@ package kcp
 //@   requires 0 <= i && i < len(h.elements) && 0 <= j && j < len(h.elements)
 //@   modifies h.elements[..]
 //@ func shardHeap.Push
-//@   requires typeis(x, fecPacket) && h.marks != nil && len(unboxval(x, fecPacket)) >= 4
+//@   requires typeis(x, fecPacket) && h.wf() && pktok(unboxval(x, fecPacket))
 //@   modifies all(h), h.elements[..], mapof(h.marks)
 //@   ensures len(h.elements) == old(len(h.elements)) + 1 && h.marks == old(h.marks)
 //@   ensures h.elements[len(h.elements) - 1] == unboxval(x, fecPacket)
 //@   ensures ref(h.elements) == old(ref(h.elements)) || fresh(h.elements)
 //@   ensures forall k int :: 0 <= k && k < old(len(h.elements)) ==> h.elements[k] == old(h.elements[k])
+//@   ensures h.wf()
 //@ func shardHeap.Pop
-//@   requires len(h.elements) > 0 && h.marks != nil && len(h.elements[len(h.elements) - 1]) >= 4
+//@   requires len(h.elements) > 0 && h.wf()
 //@   modifies all(h), h.elements[..], mapof(h.marks)
 //@   ensures typeis(result, fecPacket) && unboxval(result, fecPacket) == old(h.elements[len(h.elements) - 1])
+//@   ensures h.wf() && pktok(unboxval(result, fecPacket))
 //@   ensures len(h.elements) == old(len(h.elements)) - 1 && h.marks == old(h.marks) && ref(h.elements) == old(ref(h.elements))
 //@   ensures forall k int :: 0 <= k && k < len(h.elements) ==> h.elements[k] == old(h.elements[k])
 //
@@ -464,6 +466,15 @@ package kcp
 //@   requires tune.wf()
 //@   modifies tune
 //@   ensures tune.wf()
+//
+//@ pred (tune *autoTune) sameRing() = tune.head == old(tune.head) && tune.tail == old(tune.tail) && tune.count == old(tune.count) && tune.pulses == old(tune.pulses)
+//@ func autoTune.FindPeriod
+//@   requires tune.wf()
+//@   modifies tune
+//@   ensures tune.wf() && tune.sameRing() && 0 - 1 <= result && result <= 258
+//@   loop 1 invariant 0 <= i && tune.wf() && tune.sameRing()
+//@   loop 2 invariant 1 <= idx
+//@   loop 3 invariant 1 <= idx && 0 <= leftEdge && leftEdge < len(sorted) && leftEdge < idx
 //
 // D-INV: the FEC decoder. Every buffered packet is a pool buffer long enough to carry the FEC
 // header; shard sets owned by different ids are different objects with different backing arrays.
@@ -489,3 +500,17 @@ package kcp
 //@   ensures forall id uint32 :: in(dec.shardSet, id) ==> old(in(dec.shardSet, id))
 //@   loop 1 invariant dec.wf() && forall id uint32 :: in(dec.shardSet, id) ==> old(in(dec.shardSet, id))
 //@   loop 2 invariant true
+//
+//@ pred shardok(s []byte, maxlen int) = s == nil || (len(s) <= maxlen && cap(s) == 1494)
+//
+//@ func fecDecoder.decode
+//@   requires dec.wf() && 6 <= len(in) && len(in) <= 1500
+//@   modifies all(dec), allmaps(fecDecoder.shardSet), allof(shardHeap), allelems(fecPacket), allmaps(shardHeap.marks)
+//@   modifies dec.decodeCache[..], dec.flagCache[..], allbytes, all(DefaultSnmp)
+//@   ensures dec.wf()
+//@   loop 3 invariant forall j int :: 0 <= j && j <= rangeindex ==> shards[j] == nil
+//@   loop 4 invariant shard.wf() && dec.wfSets() && (pkts == nil || fresh(pkts)) && maxlen >= 0 && maxlen <= 1494 && numDataShard >= 0
+//@   loop 4 invariant forall j int :: 0 <= j && j < len(shards) ==> shardok(shards[j], maxlen)
+//@   loop 5 invariant forall j int :: rangeindex < j && j < len(shards) ==> shardok(shards[j], maxlen)
+//@   loop 5 invariant dec.wfSets() && (newBuffers == nil || fresh(newBuffers))
+//@   loop 6 invariant recovered == nil || fresh(recovered)
